@@ -382,7 +382,7 @@ func (fr *Frame) unop(x *ssa.UnOp, st *State, rch Term) Val {
 			f := vc.declareFun("fneg", []string{"Int"}, "Int")
 			return Val{T: x.Type(), C: []Term{sx(f, v.t())}}
 		}
-		return Val{T: x.Type(), C: []Term{wrap(x.Type(), sx("-", "0", v.t()))}}
+		return Val{T: x.Type(), C: []Term{vc.wrapT(x.Type(), sx("-", "0", v.t()))}}
 	case token.XOR:
 		t := x.Type()
 		if isUnsigned(t) {
@@ -599,6 +599,14 @@ func (fr *Frame) binop(x *ssa.BinOp, st *State, rch Term) Val {
 		unsup("string op %s", x.Op)
 	}
 	at, bt := a.t(), b.t()
+	// constant folding (keeps indices literal inside unrolled loops)
+	if la, oka := litBig(at); oka {
+		if lb, okb := litBig(bt); okb {
+			if r, ok := foldConst(x.Op, rt, x.X.Type(), la, lb); ok {
+				return Val{T: rt, C: []Term{r}}
+			}
+		}
+	}
 	switch x.Op {
 	case token.LSS:
 		return boolRes(sx("<", at, bt))
@@ -613,12 +621,21 @@ func (fr *Frame) binop(x *ssa.BinOp, st *State, rch Term) Val {
 	case token.SUB:
 		return Val{T: rt, C: []Term{wrap1(rt, vc.define("s", "Int", sx("-", at, bt)))}}
 	case token.MUL:
-		return Val{T: rt, C: []Term{wrap(rt, sx("*", at, bt))}}
+		return Val{T: rt, C: []Term{vc.wrapT(rt, sx("*", at, bt))}}
 	case token.QUO, token.REM:
 		fr.safety("div0", x, rch, not(eq(bt, "0")))
 		// truncated division
 		var q Term
 		if isUnsigned(rt) {
+			if c, ok := constOf(x.Y); ok && c.Sign() > 0 {
+				// division by a positive constant as linear constraints:
+				// x = c*q + r, 0 <= r < c (much cheaper for the solvers than div/mod terms)
+				q, r := vc.divmodConst(at, c.String())
+				if x.Op == token.QUO {
+					return Val{T: rt, C: []Term{q}}
+				}
+				return Val{T: rt, C: []Term{r}}
+			}
 			if x.Op == token.QUO {
 				return Val{T: rt, C: []Term{sx("div", at, bt)}}
 			}
@@ -649,7 +666,7 @@ func (fr *Frame) binop(x *ssa.BinOp, st *State, rch Term) Val {
 				if k >= bits {
 					return Val{T: rt, C: []Term{"0"}}
 				}
-				return Val{T: rt, C: []Term{wrap(rt, sx("*", at, pow2T(k)))}}
+				return Val{T: rt, C: []Term{vc.wrapT(rt, sx("*", at, pow2T(k)))}}
 			}
 			if k >= bits {
 				if isUnsigned(rt) {
@@ -808,7 +825,7 @@ func (fr *Frame) convert(x *ssa.Convert, st *State, rch Term) Val {
 		if fb <= tb || (fb == tb) {
 			return Val{T: to, C: []Term{wrap1(to, v.t())}}
 		}
-		return Val{T: to, C: []Term{wrap(to, v.t())}}
+		return Val{T: to, C: []Term{vc.wrapT(to, v.t())}}
 	case isInteger(from) && isFloat(to):
 		f := vc.declareFun(fmt.Sprintf("i2f%d", intBits(to)), []string{"Int"}, "Int")
 		r := Val{T: to, C: []Term{sx(f, v.t())}}
@@ -967,3 +984,57 @@ func (fr *Frame) checkGlobalStore(pl *Place, ins ssa.Instruction, rch Term) {
 }
 
 var _ = strings.HasPrefix
+
+func litBig(t Term) (*bigInt, bool) {
+	if strings.HasPrefix(t, "(- ") && strings.HasSuffix(t, ")") {
+		if n, ok := new(bigInt).SetString(t[3:len(t)-1], 10); ok {
+			return n.Neg(n), true
+		}
+		return nil, false
+	}
+	if len(t) == 0 || t[0] < '0' || t[0] > '9' {
+		return nil, false
+	}
+	return new(bigInt).SetString(t, 10)
+}
+
+func foldConst(op token.Token, rt, opT types.Type, a, b *bigInt) (Term, bool) {
+	boolT := func(v bool) (Term, bool) {
+		if v {
+			return "true", true
+		}
+		return "false", true
+	}
+	switch op {
+	case token.LSS:
+		return boolT(a.Cmp(b) < 0)
+	case token.LEQ:
+		return boolT(a.Cmp(b) <= 0)
+	case token.GTR:
+		return boolT(a.Cmp(b) > 0)
+	case token.GEQ:
+		return boolT(a.Cmp(b) >= 0)
+	case token.ADD, token.SUB, token.MUL:
+		if !isInteger(rt) {
+			return "", false
+		}
+		var r *bigInt
+		switch op {
+		case token.ADD:
+			r = new(bigInt).Add(a, b)
+		case token.SUB:
+			r = new(bigInt).Sub(a, b)
+		default:
+			r = new(bigInt).Mul(a, b)
+		}
+		// wrap into the type's range
+		bits := intBits(rt)
+		m := pow2(bits)
+		r.Mod(r, m)
+		if !isUnsigned(rt) && r.Cmp(pow2(bits-1)) >= 0 {
+			r.Sub(r, m)
+		}
+		return bigTerm(r), true
+	}
+	return "", false
+}
